@@ -46,7 +46,9 @@ def run_count(case):
             z = math.copysign(max(0.0, abs(c.mean() - want) - slack), c.mean() - want) / max(se, 1e-9)
             stats["count_tests"] = 1
             stats["max_abs_z"] = abs(z)
-            if abs(z) > 6.11:      # alpha = 1e-9 two-sided
+            from scipy import stats as sps
+            thr = float(sps.t.isf(5e-10, len(c) - 1))      # alpha = 1e-9 two-sided, variance estimated from the calls
+            if abs(z) > thr:
                 out.append(viol("C10", "density-mean-count", "mean-count-differs-from-density-times-measure", "",
                                 mean=float(c.mean()), want=want, z=z, calls=len(c)))
         except Exception as ex:
